@@ -219,6 +219,11 @@ const (
 	kOtherKey  = 13
 )
 
+const (
+	c03hugeSend    = 1844674407370956 // x 10000 = 2^64 + 8384
+	c03hugeDefault = 922337203685478  // x 10000 = 2^63 + 4192
+)
+
 func c03cfg(mult string) chain.Config {
 	cfg := baseCfg()
 	big := int64(1000 * min)
@@ -231,6 +236,9 @@ func c03cfg(mult string) chain.Config {
 		cfg.FeeMult = &chain.FeeMult{Keys: []string{"unjail", "send", "stake_validator"}, Mults: []int64{1, 3, 2}, Default: 1}
 	case "default0":
 		cfg.FeeMult = &chain.FeeMult{Default: 0}
+	case "huge":
+		// base fee x multiplier no longer fits 64 bits: nobody can pay, every transaction is refused
+		cfg.FeeMult = &chain.FeeMult{Keys: []string{"send"}, Mults: []int64{c03hugeSend}, Default: c03hugeDefault}
 	}
 	return cfg
 }
@@ -302,6 +310,15 @@ func c03cases() []c03case {
 					c.Name, c.Msg, c.Signer, c.Fee, c.FeeMult = "C", m, s.kind, f, mult
 					cs = append(cs, c)
 				}
+			}
+		}
+	}
+	for _, m := range c03msgKinds {
+		for _, s := range signers {
+			for _, f := range []string{"wrapped", "base", "none"} {
+				c := base
+				c.Name, c.Msg, c.Signer, c.Fee, c.FeeMult = "C", m, s.kind, f, "huge"
+				cs = append(cs, c)
 			}
 		}
 	}
@@ -382,10 +399,23 @@ func (e *c03env) build(c c03case, view chain.View) c03built {
 		}
 	case "default0":
 		mult = 0
+	case "huge":
+		mult = c03hugeDefault
+		if msg.Type() == "send" {
+			mult = c03hugeSend
+		}
 	}
 	required := base * mult
+	reqInt := sdk.NewInt(base).Mul(sdk.NewInt(mult)) // the requirement proper (the int64 product may have wrapped)
 	feeAmt := required
 	switch c.Fee {
+	case "wrapped":
+		// what a 64-bit product of base fee and multiplier would give
+		if feeAmt = required; feeAmt <= 0 {
+			feeAmt = 1
+		}
+	case "base":
+		feeAmt = base
 	case "req-1":
 		feeAmt = required - 1
 	case "req+1":
@@ -500,7 +530,7 @@ func (e *c03env) build(c c03case, view chain.View) c03built {
 		}
 	}
 	realSB := chain.CanonicalSignBytes(chain.ChainID, entropy, fee, msg, memo)
-	reqCoins := required
+	reqCoins := reqInt
 	switch {
 	case len(sig) == 0:
 		out.why = "empty signature"
@@ -512,7 +542,7 @@ func (e *c03env) build(c c03case, view chain.View) c03built {
 		out.why = "too many signature levels"
 	case e.d.Index.Has(raw):
 		out.why = "replay of an indexed transaction"
-	case fee.AmountOf(chain.Denom).LT(sdk.NewInt(reqCoins)):
+	case fee.AmountOf(chain.Denom).LT(reqCoins):
 		out.why = "fee below required"
 	case !independentVerify(pkVerify, realSB, sig):
 		out.why = "signature does not verify"
@@ -799,7 +829,7 @@ func C03(tier string) int {
 	run.Set("evaluations", int64(len(all)))
 	run.Set("distinct_nontrivial", int64(classes))
 	run.Set("outcome_classes", stats.m)
-	run.Set("rule", "union of complete sub-products: A message kind(8) x signer account kind(ed25519, secp256k1, 2-key multisig, nested multisig) x signing variant (own / other key same type / other type / foreign, swapped, short, duplicate, extra component / other multisig / single key) x key source (attached / from state); A2 unknown and key-less accounts, and an account whose stored key is another party's; B every post-signing mutation (chain id, message field, fee amount, fee denom, memo, memo white space, entropy, signature bit flip, truncation, empty) x message kind x signer kind; C fee (req-1, req, req+1, none) x fee-multiplier setting (default 1; keyed list unjail x1, send x3, stake x2; default 0) x message kind x signer kind; D balance grid; E memo bounds; F replays (after commit: judged; same block: recorded); G fee requirement after a governance change of the multipliers earlier in the same block. distinct_nontrivial = distinct outcome classes (accepted / rejected-by-reason) observed")
+	run.Set("rule", "union of complete sub-products: A message kind(8) x signer account kind(ed25519, secp256k1, 2-key multisig, nested multisig) x signing variant (own / other key same type / other type / foreign, swapped, short, duplicate, extra component / other multisig / single key) x key source (attached / from state); A2 unknown and key-less accounts, and an account whose stored key is another party's; B every post-signing mutation (chain id, message field, fee amount, fee denom, memo, memo white space, entropy, signature bit flip, truncation, empty) x message kind x signer kind; C fee (req-1, req, req+1, none) x fee-multiplier setting (default 1; keyed list unjail x1, send x3, stake x2; default 0; multipliers whose product with the base fee exceeds 2^63 and 2^64: nothing affordable may be accepted) x message kind x signer kind; D balance grid; E memo bounds; F replays (after commit: judged; same block: recorded); G fee requirement after a governance change of the multipliers earlier in the same block. distinct_nontrivial = distinct outcome classes (accepted / rejected-by-reason) observed")
 	run.Sample(c03case{Name: "A", Msg: "send", Signer: "ed25519", Variant: "other-same-type", KeySrc: "attached", Mut: "none", Fee: "req", Memo: "empty", Replay: "first", FeeMult: "default1"})
 	run.Sample(c03case{Name: "C", Msg: "send", Signer: "multisig", Variant: "own", KeySrc: "attached", Mut: "none", Fee: "req-1", Memo: "empty", Replay: "first", FeeMult: "type3"})
 	run.Assume("signature validity is decided by Tendermint's ed25519/secp256k1 primitives and the positional N-of-N rule; signatures are made and judged over the harness's own rendering of the documented sign bytes (key-sorted JSON of chain id, entropy, fee, memo, message sign bytes), not over the repository's StdSignBytes",
